@@ -40,7 +40,9 @@
 (*     of a child that had already exited or crashed, returns without panic,   *)
 (*     promptly, sends no signal (no pid is signalled after it was reaped),    *)
 (*     and at the Connection / ClientSession level returns what the first      *)
-(*     Close returned.                                                         *)
+(*     Close returned.  (That a waited-for pid is never signalled is the work  *)
+(*     of os.Process - pidfd / done flag; in the model SendTerm and SendKill   *)
+(*     deliver nothing once child = "gone" - and is trusted, not observed.)    *)
 (*  P5 SESSION.  ClientSession.Close over a CommandTransport returns, and a    *)
 (*     child that is an mcp.Server running over StdioTransport sees its Run    *)
 (*     return on the stdin close and exits with status 0 without needing any   *)
